@@ -1,10 +1,14 @@
 /-
   C20 (decoders) — the raw Windows notification buffer and the raw inotify buffer are decoded into
   exactly the records that were encoded, for every record count, name length and padding.
-  (The Windows / FSEvents translation layers are covered by the harness against documented-semantics
-  simulators; see DESIGN.md — no theorem about an OS that cannot be observed here.)
+  C20 (translation layers) — the ReadDirectoryChangesW and FSEvents emitters (WD.Win, WD.Mac: models of
+  `WindowsApiEmitter.queue_events` / `FSEventsEmitter.queue_events`, tied to the real classes on every run)
+  turn the native notifications that documented-semantics simulators (`winRecs`, `macEvents`: ASSUMPTIONS
+  about operating systems that cannot be observed here) render for any valid history, every operation
+  drained, into the per-operation contract of the layer; replaying that stream reproduces the tree.
 -/
 import WD.Proofs.Decoders
+import WD.Proofs.Mac.Cut
 namespace WD.C20
 open WD.Dec
 
@@ -35,5 +39,82 @@ example : decodeIno (encodeIno [(⟨1, 256, 0, [97, 98]⟩, 14), (⟨2, 1024, 0,
   decide +kernel
 example : decodeWin (encodeWin [(⟨1, [0xFEFF, 120]⟩, 0), (⟨3, [97]⟩, 2)]) 34 = [⟨1, [0xFEFF, 120]⟩, ⟨3, [97]⟩] := by
   decide +kernel
+
+
+/- ======================= the translation layers ======================= -/
+open WD.Pipe
+
+/-- Windows: for every history Windows accepts (`winFsValid`: the syscalls' guards, no rename onto an existing
+    name), every operation drained, however each operation's records are cut into reads, the delivered stream is
+    the Windows contract's, operation by operation: a rename inside the watched tree is one moved event with both
+    paths plus synthetic events for the descendants, a move in / out is a created / deleted event, the removal of
+    the root stops the emitter (`Win.winContract`) -/
+theorem win_contract_refined (fs : FS) (hwf : fs.WF) (recursive : Bool) (ops : List (Op × List Nat))
+    (hv : Win.winFsValid fs (ops.map Prod.fst) = true) :
+    ((Win.WSys.mk fs {} recursive).runCuts ops).2 = Win.winContractRun fs recursive (ops.map Prod.fst) := by
+  rw [Win.runCuts_eq_run]
+  exact Win.run_contract ⟨fs, {}, recursive⟩ _ hwf rfl hv
+
+/-- Windows, C01: replaying the delivered created / deleted / moved events on the tree as it stood at the start gives
+    the tree that exists afterwards (recursive watch: the whole tree; non-recursive: the root's direct children) -/
+theorem win_replay (fs : FS) (hwf : fs.WF) (ops : List Op) (hv : Win.winFsValid fs ops = true) (hroot : Op.rmdir ["W"] ∉ ops) :
+    sameTree (replay (treeW fs) ((Win.WSys.mk fs {} true).run ops).2.flatten) (treeW (fsRun fs ops)) ∧
+    sameTree (replay (treeW1 fs) ((Win.WSys.mk fs {} false).run ops).2.flatten) (treeW1 (fsRun fs ops)) := by
+  rw [Win.run_contract ⟨fs, {}, true⟩ _ hwf rfl hv, Win.run_contract ⟨fs, {}, false⟩ _ hwf rfl hv]
+  exact ⟨Win.win_replay_run hwf ops hv hroot, Win.win_replayFlat_run hwf ops hv hroot⟩
+
+/-- Windows: extra MODIFIED records anywhere in a read (LAST_WRITE / ATTRIBUTES notifications of parents) change
+    neither the emitter's state nor the replayed tree -/
+theorem win_noise (fs : FS) (recursive : Bool) (st : Win.EmSt) (recs recs' : List Win.WRec) (h : Win.Noisy recs recs') :
+    (Win.emitBatch fs recursive st recs').1 = (Win.emitBatch fs recursive st recs).1 ∧
+    ∀ t, replay t (Win.emitBatch fs recursive st recs').2 = replay t (Win.emitBatch fs recursive st recs).2 :=
+  Win.noise_irrelevant fs recursive st h
+
+/-- Windows: a buffer cut between the two records of a rename (or anywhere else) changes nothing -/
+theorem win_cut (fs : FS) (recursive : Bool) (st : Win.EmSt) (a b : List Win.WRec) :
+    Win.emitBatches fs recursive st [a, b] = Win.emitBatch fs recursive st (a ++ b) := by
+  rw [Win.emitBatches_flatten]; simp
+
+/-- FSEvents: for every such history, every operation drained, the delivered stream is the FSEvents contract's
+    (`Mac.macContract`), operation by operation; a non-recursive watch delivers the part of it that its filter lets
+    through -/
+theorem mac_contract_refined (fs : FS) (hwf : fs.WF) (recursive : Bool) (ops : List Op) (hv : Win.winFsValid fs ops = true) :
+    ((Mac.MSys.mk fs {} recursive).run ops).2 = Mac.filterRun recursive (Mac.macContractRun fs ops) :=
+  Mac.run_contract ⟨fs, {}, recursive⟩ ops hwf rfl (fun _ h => by cases h) hv
+
+/-- FSEvents, C01 (recursive watch): replaying the delivered stream reproduces the tree -/
+theorem mac_replay (fs : FS) (hwf : fs.WF) (ops : List Op) (hv : Win.winFsValid fs ops = true) (hroot : Op.rmdir ["W"] ∉ ops) :
+    sameTree (replay (treeW fs) ((Mac.MSys.mk fs {} true).run ops).2.flatten) (treeW (fsRun fs ops)) := by
+  rw [mac_contract_refined fs hwf true ops hv]
+  exact Mac.mac_replay_run hwf ops hv hroot
+
+/-- FSEvents, a callback boundary between the two native events of a rename inside the tree: the emitter falls back
+    to a deleted event, a created event and synthetic created events (`Mac.cutStream`: exactly what the two
+    callbacks deliver, `Mac.cut_rename_emits`), and that stream still replays to the tree after the rename -/
+theorem mac_cut_partial (fs : FS) (hwf : fs.WF) (st : Mac.MSt) (p q : P) (x : Ent) (hx : fs.find? p = some x)
+    (hv : Win.winValid fs (.rename p q) = true) (hp : Mac.inW p = true) (hq : Mac.inW q = true) :
+    (∃ e1 e2, Mac.macEvents fs (.rename p q) = [e1] ++ [e2] ∧
+      (Mac.emitBatch (fsAfter fs (.rename p q)) true st [e1]).2 ++
+      (Mac.emitBatch (fsAfter fs (.rename p q)) true (Mac.emitBatch (fsAfter fs (.rename p q)) true st [e1]).1 [e2]).2 =
+        Mac.cutStream fs p q (fs.isDir p)) ∧
+    sameTree (replay (treeW fs) (Mac.cutStream fs p q (fs.isDir p))) (treeW (fsAfter fs (.rename p q))) := by
+  obtain ⟨h1, h2, h3⟩ := Mac.cut_rename_emits hwf st p q hv hp hq x hx
+  have hd : fs.isDir p = x.isDir := by simp [FS.isDir, hx]
+  exact ⟨⟨_, _, h1, by rw [h2, h3, hd]; rfl⟩, Mac.cut_rename_replay hwf p q hv hp hq⟩
+
+/-- FSEvents, non-recursive watch: whatever the callback carries, nothing below the root's direct children is
+    reported -/
+theorem mac_nonrecursive_shallow (fs : FS) (st : Mac.MSt) (evs : List Mac.MEv) :
+    ∀ e ∈ (Mac.emitBatch fs false st evs).2, e.src = ["W"] ∨ parentOf e.src = ["W"] ∨ parentOf e.dest = ["W"] :=
+  Mac.flat_shallow fs st evs
+
+/-- non-vacuity: a populated directory moves in, is renamed inside and moves out again; a rename cut in two reads -/
+example : Win.winFsValid (fsRun FS.init [.mkdir ["O", "d"], .create ["O", "d", "x"]])
+    [.rename ["O", "d"] ["W", "d"], .rename ["W", "d"] ["W", "e"], .rename ["W", "e"] ["O", "e"]] = true := by decide +kernel
+example : ((Win.WSys.mk (fsRun FS.init [.mkdir ["W", "d"], .create ["W", "d", "x"]]) {} true).op (.rename ["W", "d"] ["W", "e"]) [0]).2 =
+    [mkEv .DirMovedEvent ["W", "d"] ["W", "e"], mkEv .FileMovedEvent ["W", "d", "x"] ["W", "e", "x"] true] := by decide +kernel
+example : ((Mac.MSys.mk (fsRun FS.init [.mkdir ["W", "d"], .create ["W", "d", "x"]]) {} true).op (.rename ["W", "d"] ["W", "e"])).2 =
+    [mkEv .DirMovedEvent ["W", "d"] ["W", "e"], dirMod ["W", "d"], dirMod ["W", "e"],
+     mkEv .FileMovedEvent ["W", "d", "x"] ["W", "e", "x"] true] := by decide +kernel
 
 end WD.C20
